@@ -19,7 +19,9 @@ FormOk(S, f) == (f = "impl" => S # {}) /\ (f = "split" => Cardinality(S) >= 2)
 FnDecls == { d \in [S : SUBSET B, form : Forms, byvalue : BOOLEAN] : FormOk(d.S, d.form) }
 ModDecls == { d \in [S : {{}, {"B1"}, {"B2"}, {"B1", "B2"}, {"B3"}}, form : {"inline", "where", "impl"}, byvalue : BOOLEAN] : FormOk(d.S, d.form) }
 \* ("nosend": no mock setting but `?Send` - the fixed `Sync + 'static` requirement does not depend on it)
-Mocks == {"none", "unimock+api", "api-only", "unimock=false+api", "mockall", "mockall=false", "nosend"}
+\* ("async": no mock setting, every function is an `async fn` - a future that borrows the receiver needs `T: Sync`, which is part of the
+\*  fixed requirement, not `T: Send`)
+Mocks == {"none", "unimock+api", "api-only", "unimock=false+api", "mockall", "mockall=false", "nosend", "async"}
 Inputs == { i \in [mode : {"fn"}, fns : { <<d>> : d \in FnDecls }, mock : Mocks, feature : BOOLEAN]
                   : i.mock = "unimock+api" => i.feature }
           \cup (IF WithMod THEN { i \in [mode : {"mod"}, fns : { <<d1, d2>> : d1 \in ModDecls, d2 \in ModDecls }, mock : Mocks, feature : BOOLEAN]
@@ -32,6 +34,7 @@ MockOpts(m) == CASE m = "none" -> <<>>
                  [] m = "mockall" -> <<Bare("mockall")>>
                  [] m = "mockall=false" -> <<Eq("mockall", "false")>>
                  [] m = "nosend" -> <<Bare("?Send")>>
+                 [] m = "async" -> <<>>
 AttrOf(i) == [lead |-> "pub T", opts |-> MockOpts(i.mock), trail |-> ""]
 FE(i) == FrontEnd(i.mode, AttrOf(i), "entrait", i.feature)
 
